@@ -101,6 +101,15 @@ def algo_list(digit):
 
 
 D64_SUBSET = [('BIN', None), ('PRE', None), ('SW', 4), ('C1', 3), ('C2', 4), ('C2', 8)]
+# Every algorithm has two projective versions (EC_PROJ_ADD_MIX or not) and an affine one: those three coordinate
+# choices get every window width; EC_PROJ_REPEAT_DOUBLE only changes ec_point_proj_dbl_n(), so the two remaining
+# combinations get every algorithm with one or two widths.
+FULL_COORDS = ('aff', 'jac', 'jacMR')
+TINY_CROSS = (1 << 0) | (1 << 1) | (1 << 5) | (1 << 6) | (1 << 8) | (1 << 10)
+
+
+def algos_for(coord, digit):
+    return algo_list(digit) if coord in FULL_COORDS else D64_SUBSET
 
 
 def thorough_configs():
@@ -114,7 +123,7 @@ def thorough_configs():
             c.append(mk('add', coord, digit, targets=T_ADD, real=REAL_SMALL, cost=60))
     # (B) base-point multiplication: coordinates x EC_PF_FXP_MULT_ALGO x window bits
     for coord in COORDS:
-        for a in algo_list(8):
+        for a in algos_for(coord, 8):
             c.append(mk('fxp', coord, 8, fxp=a, targets=T_BP, real=REAL_SMALL, cost=4))
     for a in algo_list(64):
         c.append(mk('fxp', 'jacMR', 64, fxp=a, targets=T_BP, real=REAL_ALL, cost=15))
@@ -125,7 +134,7 @@ def thorough_configs():
             c.append(mk('fxp', 'jacMR', digit, fxp=a, targets=T_BP, real=REAL_SMALL, cost=6))
     # (C) unknown-point multiplication: coordinates x EC_PF_UNKPT_MULT_ALGO x window bits
     for coord in COORDS:
-        for a in algo_list(8):
+        for a in algos_for(coord, 8):
             c.append(mk('unk', coord, 8, unk=a, targets=T_UNK, real=(1 << 2), cost=12))
         c.append(mk('unk', coord, 8, fxp=('C2', 4), unk=('SAME', None), targets=T_UNK, real=(1 << 2), cost=12))
     for a in algo_list(64):
@@ -140,7 +149,11 @@ def thorough_configs():
     # (D) twin multiplication: coordinates x EC_PF_TWIN_MULT_ALGO; FXP_UNKPT crossed with both families
     for coord in COORDS:
         for tw in ('BIN', 'JOINT', 'INTER'):
-            c.append(mk('twin', coord, 8, twin=tw, targets=T_TWIN, real=(1 << 2), cost=100))
+            # TWIN_ALGO_BIN is two binary multiplications and one addition: the full (k1,k2,Q) space for it in
+            # the affine and one projective build only
+            full = (tw != 'BIN' or coord in ('aff', 'jacMR'))
+            c.append(mk('twin', coord, 8, twin=tw, targets=T_TWIN, real=(1 << 2), cost=(100 if full else 10),
+                        extra=([] if full else NOFULL)))
     for coord in ('aff', 'jacMR'):
         for tw in ('BIN', 'JOINT', 'INTER'):
             c.append(mk('twin', coord, 64, twin=tw, targets=T_TWIN, real=(REAL_REPR_AFF if coord == 'aff' else REAL_ALL),
@@ -154,7 +167,7 @@ def thorough_configs():
                     continue        # the header folds this one into TWIN_ALGO_BIN
                 full = (f[0] == 'C2' and u[0] == 'C1' and coord != 'jac')  # nearest to the defaults: the full space
                 c.append(mk('twinfu', coord, 8, fxp=f, unk=u, twin='FU', targets=T_TWIN, real=(1 << 2),
-                            cost=(100 if full else 8), extra=([] if full else NOFULL)))
+                            tiny=(TINY_ALL if full else TINY_CROSS), cost=(100 if full else 8), extra=([] if full else NOFULL)))
     for coord in ('aff', 'jacMR'):
         c.append(mk('twinfu', coord, 64, fxp=('C2', 9), unk=('C1', 2), twin='FU', targets=T_TWIN,
                     real=(REAL_REPR_AFF if coord == 'aff' else REAL_REPR), cost=30, extra=NOFULL))
